@@ -7,7 +7,7 @@ from .expr import *
 from .engine import Engine, State, Contract, Obligation, MUTATORS, _labelled
 
 
-def assigned_names(stmts):
+def assigned_names(stmts, mutating_methods=()):
     """names (re)bound or mutated by a block -- the havoc set of a loop"""
     out = set()
     yields = False
@@ -15,7 +15,7 @@ def assigned_names(stmts):
         for n in ast.walk(s):
             if isinstance(n, ast.Name) and isinstance(n.ctx, (ast.Store, ast.Del)):
                 out.add(n.id)
-            elif isinstance(n, ast.Call) and isinstance(n.func, ast.Attribute) and n.func.attr in MUTATORS:
+            elif isinstance(n, ast.Call) and isinstance(n.func, ast.Attribute) and (n.func.attr in MUTATORS or n.func.attr in mutating_methods):
                 b = n.func.value
                 while isinstance(b, (ast.Subscript, ast.Attribute)):
                     b = b.value
@@ -136,6 +136,8 @@ class Executor(Engine):
                 value._dict_ty = ty.inner
             if isinstance(ty, TOpt) and isinstance(ty.inner, (TList, TSet)):
                 value._elem_ty = ty.inner.elem
+            if isinstance(ty, TTuple) or (isinstance(ty, TOpt) and isinstance(ty.inner, TTuple)):
+                value._as_tuple = True
 
     def st_AnnAssign(self, s, st):
         if s.value is None:
@@ -203,6 +205,19 @@ class Executor(Engine):
                 lt = base.ty
                 st2.env[name] = V(lt, lt.mk(z3.Store(lt.arr(base.t), j, coerce(val, lt.elem).t), n))
                 return st2
+            tb = base
+            if isinstance(tb.ty, TOpt) and isinstance(tb.ty.inner, TTuple):
+                ctx.exc('TypeError', tb.ty.is_none(tb.t))
+                tb = V(tb.ty.inner, tb.ty.val(tb.t))
+            if isinstance(tb.ty, TTuple):
+                it = z3.simplify(to_int(idx))
+                if not z3.is_int_value(it) or not (0 <= it.as_long() < len(tb.ty.elems)):
+                    raise OutOfSubset(f'store into a fixed-shape list at a non-constant index (line {line})')
+                parts = tuple_parts(tb)
+                parts[it.as_long()] = coerce(val, tb.ty.elems[it.as_long()])
+                st2 = self.commit(st, ctx, results).fork()
+                st2.env[name] = coerce(mk_tuple(parts), base.ty)
+                return st2
             obase = base
             if isinstance(base.ty, TOpt) and isinstance(base.ty.inner, TDict):
                 ctx.exc('TypeError', base.ty.is_none(base.t))
@@ -229,13 +244,19 @@ class Executor(Engine):
         ctx = self.new_ctx(st, line)
         recv = call.func.value
         meth = call.func.attr
+        field = None
+        if isinstance(recv, ast.Attribute) and isinstance(recv.value, ast.Name) and recv.value.id in st.env \
+                and isinstance(st.env[recv.value.id].ty, TRec) and recv.attr in st.env[recv.value.id].ty.fields:
+            field = recv.attr
+            recv = recv.value
         if not isinstance(recv, ast.Name):
             raise OutOfSubset(f'mutation of non-name {ast.unparse(recv)} at line {line}')
         name = recv.id
-        base = st.env.get(name)
-        if base is None:
+        if st.env.get(name) is None:
             raise OutOfSubset(f'mutation of unbound {name}')
-        args = [self.ev.ev(a, ctx) for a in call.args]
+        args = [self.ev.ev(a, ctx) for a in call.args]      # (may edit the receiver through mutating callees: read it afterwards)
+        owner = ctx.env[name]
+        base = owner if field is None else V(owner.ty.fields[field], owner.ty.get(field, owner.t))
         new = None
         obase = base
         if isinstance(base.ty, TOpt) and isinstance(base.ty.inner, (TList, TSet, TBag)):
@@ -285,7 +306,13 @@ class Executor(Engine):
         if new is None:
             raise OutOfSubset(f'.{meth} on {base.ty} at line {line}')
         st2 = self.commit(st, ctx, results).fork()
-        st2.env[name] = coerce(new, obase.ty) if obase is not base else new
+        newv = coerce(new, obase.ty) if obase is not base else new
+        if field is None:
+            st2.env[name] = newv
+        else:
+            rt = owner.ty
+            terms = [coerce(newv, fty).t if f_ == field else rt.get(f_, owner.t) for f_, fty in rt.fields.items()]
+            st2.env[name] = V(rt, rt.mk(*terms))
         return results + [(st2, None)]
 
     def bag_union(self, a, b, ctx):
@@ -410,6 +437,8 @@ class Executor(Engine):
                     if any(self.is_subclass(o[1], nm) for nm in names):
                         st3 = st2.fork()
                         st3.env['__caught__'] = o[1]
+                        if h.name:
+                            st3.env[h.name] = mk_str('<exception>')
                         out.extend(self.exec_block(h.body, st3))
                         handled = True
                         break
@@ -526,9 +555,13 @@ class Executor(Engine):
         results = []
         ordn = self.cur.loop_ord[id(node)]
         st0, kind, data = self.loop_setup(node, st, results)
-        names, yields = assigned_names(node.body)
+        names, yields = assigned_names(node.body, self.mutating_methods())
         tnames = {n.id for n in ast.walk(node.target) if isinstance(n, ast.Name)}
-        for nd in ast.walk(node.iter):
+        it_ = node.iter
+        while isinstance(it_, (ast.Attribute, ast.Subscript)):
+            it_ = it_.value
+        # (an iterable that is the RESULT of a call is a fresh object evaluated once: later edits of its arguments do not matter)
+        for nd in ([it_] if isinstance(it_, ast.Name) else []):
             if isinstance(nd, ast.Name) and nd.id in names and kind != 'range':
                 raise OutOfSubset(f'loop at line {node.lineno} mutates or rebinds its own iterable `{nd.id}`')
         bagv = lambda s_: {'yields': V(self.cur.bag_ty, s_.bag)} if s_.bag is not None else {}
@@ -540,12 +573,15 @@ class Executor(Engine):
         if kind == 'dict':
             dt = data['src'].ty
             extra0[f'_seen{ordn}'] = V(TSet(dt.k), z3.K(dt.k.sort(), False))
+        at_entry = {f'{nm}_at{ordn}': st0.env[nm] for nm in names if nm in st0.env}   # values at this loop's entry
+        extra0.update(at_entry)
         self.check_invs(ordn, st0, self.inv_env(st0, ordn, z3.IntVal(0), extra0), 'entry', node.lineno)
         # arbitrary iteration
         sth = self.havoc(st0, (names | tnames), yields)
         k = fresh(f'_k{ordn}', z3.IntSort())
         sth.pc = sth.pc + [k >= 0]
         extra = bagv(sth)
+        extra.update(at_entry)
         done = None
         if kind == 'bag':
             bt = data['src'].ty
@@ -597,6 +633,7 @@ class Executor(Engine):
             for st2, o in self.exec_block(node.body, stb):
                 if o is None or o[0] == 'continue':
                     extra2 = bagv(st2)
+                    extra2.update(at_entry)
                     if kind == 'bag':
                         extra2[f'_done{ordn}'] = V(done.ty, z3.Store(done.t, x.t, z3.Select(done.t, x.t) + 1))
                     if kind == 'dict':
@@ -627,7 +664,7 @@ class Executor(Engine):
     def st_While(self, node, st):
         results = []
         ordn = self.cur.loop_ord[id(node)]
-        names, yields = assigned_names(node.body)
+        names, yields = assigned_names(node.body + [ast.Expr(value=node.test)], self.mutating_methods())
         bagv = lambda s_: {'yields': V(self.cur.bag_ty, s_.bag)} if s_.bag is not None else {}
         self.check_invs(ordn, st, self.inv_env(st, ordn, z3.IntVal(0), bagv(st)), 'entry', node.lineno)
         sth = self.havoc(st, names, yields)
@@ -669,6 +706,9 @@ class Executor(Engine):
             else:
                 results.append((ste, None))
         return results
+
+    def mutating_methods(self):
+        return {q.split(':')[1].split('.')[-1].split('@')[0] for q, c in self.contracts.items() if c.d.get('mutates')}
 
     def next_path(self):
         self.path_count += 1
@@ -918,6 +958,7 @@ def make_engine(modname, repo=None):
         _t.register_record(rname, fields, m.ALIASES)
     _t.finish_records()
     eng.classes = getattr(m, 'CLASSES', {})
+    eng.unions = getattr(m, 'UNIONS', {})
     eng.ctors = getattr(m, 'CTORS', {})
     eng.funcs = getattr(m, 'FUNCS', {})
     eng.axioms = getattr(m, 'AXIOMS', [])
